@@ -783,6 +783,10 @@ def run(ctx):
                                    found='%s in %s' % (d, fi.qual))
                     if d in ('open', 'io.open', 'os.open') or d.endswith('.write_text') or d.endswith('.write_bytes') or d.endswith('.open'):
                         n_open += 1
+                        if fi is not etf and d == 'os.open' and _only_opener_of(p, fi, etf):
+                            ob.evaluations += 1
+                            ob.note('%s is the opener= of the open() call in export_to_file (it creates the file that call asks for)' % fi.qual)
+                            continue
                         ob.require(fi is etf, 'a file is created outside PaperWallet.export_to_file', '%s:%d' % (fi.module.relpath, n.lineno),
                                    found='%s in %s' % (d, fi.qual))
         ob.require(n_out >= 1 and n_open >= 1, 'the stdout writer and the file creator were found (positive control)', pprint.where,
@@ -826,6 +830,27 @@ def run(ctx):
         if o.rule == 'C15.FILTER':
             o.rule = 'C20.FILTERED(=C15.FILTER)'
             ctx.obligations.append(o)
+
+
+def _only_opener_of(p, fi, etf):
+    """fi is a module-level function whose every use in the package is `opener=fi` in an open() call inside export_to_file"""
+    if fi.cls is not None:
+        return False
+    uses = 0
+    for f2 in p.functions.values():
+        parents = {}
+        for n in ast.walk(f2.node):
+            for ch in ast.iter_child_nodes(n):
+                parents[ch] = n
+        for n in ast.walk(f2.node):
+            if isinstance(n, ast.Name) and n.id == fi.name and isinstance(n.ctx, ast.Load):
+                par = parents.get(n)
+                call = parents.get(par) if isinstance(par, ast.keyword) else None
+                if not (f2 is etf and isinstance(par, ast.keyword) and par.arg == 'opener' and isinstance(call, ast.Call)
+                        and ast.unparse(call.func) in ('open', 'io.open')):
+                    return False
+                uses += 1
+    return uses >= 1
 
 
 def check_sinks(ctx, rule):
